@@ -46,6 +46,61 @@ def Txn.reserve (s : Store) (t : Txn) : Store × Txn × Nat :=
   let (s, idx) := s.next
   (s, { (t.putOp rowColumn ⟨opInsert, idx, .fixed 0 []⟩) with cursor := idx }, idx)
 
+/-- outcome of a key operation -/
+inductive KeyResult
+  | existsAt (i : Nat)     -- the key resolves to row `i` (update path / `InsertKey` refused)
+  | inserted (i : Nat)     -- a new row was reserved at `i`
+  | notFound
+  | noKey
+  deriving DecidableEq, Repr, Inhabited
+
+/-- `OffsetOf(key)`: lookup in the committed key table -/
+def Store.offsetOf (s : Store) (key : Bytes) : Option Nat :=
+  (s.pk.bind s.findCol).bind (fun kc => kc.seek.get? key)
+
+/-- `InsertKey` / `UpsertKey` / `QueryKey`: the decision and the reservation; `body` is the row
+    callback (it buffers writes at the cursor), `fail` its result. The key itself is written after
+    the callback, also when the callback failed (as the code does). -/
+def Txn.keyOp (s : Store) (t : Txn) (cmd : String) (key : Bytes) (body : Store → Txn → Txn) (fail : Bool) :
+    Store × Txn × KeyResult :=
+  match s.pk with
+  | none => (s, t, .noKey)
+  | some pk =>
+    match s.offsetOf key with
+    | some i =>
+      if cmd = "inskey" then (s, t, .existsAt i)
+      else (s, body s { t with cursor := i }, .existsAt i)
+    | none =>
+      if cmd = "qkey" then (s, t, .notFound)
+      else
+        let (s1, t1, idx) := t.reserve s
+        let t2 := body s1 t1
+        let s2 := if fail then s1.free idx else s1
+        (s2, t2.putOp pk ⟨opPut, idx, .str key⟩, .inserted idx)
+
+/-- `DeleteKey` -/
+def Txn.deleteKey (s : Store) (t : Txn) (key : Bytes) : Txn × KeyResult :=
+  match s.pk with
+  | none => (t, .noKey)
+  | some _ =>
+    match s.offsetOf key with
+    | some i => (t.putOp rowColumn ⟨opDelete, i, .fixed 0 []⟩, .existsAt i)
+    | none => (t, .notFound)
+
+/-- `Txn.Insert` (collections without a key column): reservation, callback, release on failure -/
+def Txn.insert (s : Store) (t : Txn) (body : Store → Txn → Txn) (fail : Bool) : Store × Txn × Nat :=
+  let (s1, t1, idx) := t.reserve s
+  let t2 := body s1 t1
+  (if fail then s1.free idx else s1, t2, idx)
+
+/-- `rwKey.Set`: refused when the key already resolves -/
+def Txn.setKey (s : Store) (t : Txn) (key : Bytes) : Txn × Bool :=
+  match s.pk with
+  | none => (t, false)
+  | some pk =>
+    let t := t.bufferFor pk
+    if (s.offsetOf key).isSome then (t, false) else (t.putOp pk ⟨opPut, t.cursor, .str key⟩, true)
+
 /-! ### commit -/
 
 def insertDedup (x : Nat) : List Nat → List Nat
